@@ -413,12 +413,11 @@ package swap
 
 //@ # ---------------------------------------------------------------- lock discipline (C25)
 //@ guarded SwapV2.pairs by muPairs
-//@ guarded orderList.list by mu
+//@ guarded Swap.pairs by muPairs
+//@ # NOT declared: orderList.list by mu, orderDirties.list by mu: the order maps of a pool are read under the pool's
+//@ # lockOrders alone in some functions (AddLastSwapStepWithOrders, updateDirtyOrders, the load closures) and under their
+//@ # own mu in others; the discipline is not established by the code, see DESIGN.md section 9
 //@ # helpers that are only called with the lock held
-//@ func (*PairV2).order #lockpre
-//@   requires wheld(p.orders.mu)
-//@ func (*Pair).order #lockpre
-//@   requires wheld(p.orders.mu)
 //@ func (*SwapV2).pair #lockpre
 //@   requires held(s.muPairs)
 //@ func (*SwapV2).addPair #lockpre
